@@ -92,8 +92,26 @@ def run_case(case, rec):
             bad("CompiledExpression.gradient", "raises:" + type(ex).__name__, ex=ex)
     rec.cmp(1, cell) if not fns else None
 
-    nbad, worst = {}, {}
+    # the same expression objects compiled again for another order of the same variables
     n = len(V)
+    if n >= 2 and "compile_jacobian" in fns:
+        V2 = list(reversed(V)) if n == 2 else V[1:] + V[:1]
+        pt = case["points"][0]
+        try:
+            V2o = b.variables(V2)
+            got2 = np.asarray(AD.compile_jacobian(es, V2o)(B.point_array(V2, pt)), dtype=float)
+            want2 = np.array([R.ref_jet(D, nd, V2, pt, order=1)[0].g for nd in nodes])
+            rec.cmp(m * n, cell)
+            if got2.shape != want2.shape or not np.allclose(got2, want2, rtol=1e-7, atol=1e-9):
+                bad("compile_jacobian", "second-variable-order-on-same-expressions:mismatch", pt, got=got2.tolist(), want=want2.tolist())
+            if m == 1:
+                g2 = np.asarray(C.compile_gradient(es[0], V2o)(B.point_array(V2, pt)), dtype=float).reshape(-1)
+                if g2.shape != want2[0].shape or not np.allclose(g2, want2[0], rtol=1e-7, atol=1e-9):
+                    bad("compile_gradient", "second-variable-order-on-same-expression:mismatch", pt, got=g2.tolist(), want=want2[0].tolist())
+        except Exception as ex:
+            bad("compile_jacobian", "second-variable-order-raises:" + type(ex).__name__, ex=ex)
+
+    nbad, worst = {}, {}
     for pt in case["points"]:
         x = B.point_array(V, pt)
         want = np.zeros((m, n))
